@@ -57,9 +57,7 @@ def main(tier, args):
                    "week mask: every enabled alarm must be armed for the earliest matching instant under the calendar in force, its TimerEvent interval and loop timer record >= the wall distance, exactly "
                    "one loop timer record per enabled alarm and none for a disabled one"
                    % ("{1,23296,43200,86398} and 12 more values on a stride-7 grid" if quick else "every 10-minute value, every hour +-1 and 16 boundary values at every second", "seconds-of-day {0,1,43200,86398,86399} x 40 masks (all with <=2 or >=6 days set + 3 patterns)" if quick else "16 boundary seconds-of-day x all 128 masks", NSETS, NFAR, depth, len(FIRE)),
-              assumptions=["defect candidates on the unchanged tree, kept behind default-off switches: C20_CRON_LEADING_ZERO=1 (cron numbers with a leading zero: '0 30 08 * * *' is rejected, "
-                           "'0 0 010 * * *' means 08:00 - strtol base 0 in ccronexpr parse_uint) and C20_CRON_REJECTED_INIT=1 (CronAlarm: initialize(valid) then initialize(invalid) returns false but "
-                           "leaves a partial expression that enable() arms)",
+              assumptions=["cron numbers with a leading zero ('0 30 08 * * *', '0 0 010 * * *' = 10:00) and a rejected CronAlarm::initialize() after a valid one are explored by default since their repair in /repo (C20_CRON_LEADING_ZERO=0 / C20_CRON_REJECTED_INIT=0 turn them off)",
                            "cron: day-of-month and day-of-week both restricted is read as a conjunction (what ccronexpr implements); %d expressions left out by C20_CRON_KNOWN_DEFECTS=0 "
                            "(default: none left out; the 8 expressions that exposed the ccronexpr defects 'lower field kept after a roll-over', 'same day number in a later month', "
                            "'day 29..31 overflows when the month is set' are evaluated)" % NDEFECT,
